@@ -193,7 +193,10 @@ pub fn table(thorough: bool) -> Vec<LibEntry> {
     t.push(entry!(sd "seq" 1 Box<[i16]>, [vec![1i16, -2].into_boxed_slice()], gen [], name "Array<number>"));
     t.push(entry!(sd "set" 1 HashSet<String>, [HashSet::new(), ["a".to_string()].into_iter().collect()], gen [], name "Array<string>"));
     t.push(entry!(sd "set" 2 BTreeSet<LU>, [[lu(1), lu(3)].into_iter().collect()], gen ["LU"], name "Array<LU>"));
-    arrays!(t; 0, 1, 2, 3, 4, 5, 6, 7, 8, 9, 10, 11, 12, 13, 14, 15, 16, 17, 18, 19, 20, 21, 22, 23, 24, 25, 26, 27, 28, 29, 30, 31, 32);
+    // `[T; 0]` is declared `[]`: it does not mention T, so T is no dependency (an import would be unused, C03)
+    t.push(entry!(sd "array" 1 [u8; 0], [[7u8; 0]], gen [], name "[]"));
+    t.push(entry!(sd "array" 2 [LU; 0], [[]], gen [], name "[]"));
+    arrays!(t; 1, 2, 3, 4, 5, 6, 7, 8, 9, 10, 11, 12, 13, 14, 15, 16, 17, 18, 19, 20, 21, 22, 23, 24, 25, 26, 27, 28, 29, 30, 31, 32);
     big_arrays!(t; 33, 40, 48, 63, 64, 65);
     // ---- tuples ----------------------------------------------------------------------------
     t.push(entry!(sd "tuple" 1 (i32,), [(1,)], gen [], name "[number]"));
